@@ -48,7 +48,14 @@ def r1_generator_plumbing(chk: Check) -> None:
     if len(seen) < 3:
         chk.undecided("C01.R1", "<discovery>", f"sites={len(seen)}", "fewer from_schema call sites than confirmed by hand (3)")
     bcf = P.func(f"{HYP}:_build_custom_formats")
-    guarded = [n for n, _b in ptests("not $c.allow_x00", bcf.node) if isinstance(n, ast.If) and phas("$f[HEADER_FORMAT] = header_values(blacklist_characters=$_)", n.body)]
+    def _nul_restricted_store(blk: list[ast.stmt]) -> bool:
+        for a in blk:
+            if isinstance(a, ast.Assign) and any(isinstance(t, ast.Subscript) and unparse(t.slice) == "HEADER_FORMAT" for t in a.targets):
+                if any("header_values(" in x and "\\x00" in x for x in canon(bcf, a.value)):
+                    return True
+        return False
+
+    guarded = [n for n, _b in ptests("not $c.allow_x00", bcf.node) if isinstance(n, ast.If) and _nul_restricted_store(n.body)]
     chk.expect(bool(guarded), "C01.R1", bcf, "header values exclude NUL when allow_x00 is off", "restriction of the header format not recognised", bcf.loc())
     # NOT-SHADOWED: every store of Schemathesis' own header strategy (`header_values(...)`) either blacklists NUL or sits where
     # allow_x00 is known to be on; the only branch that may come first is the user's explicit header strategy
@@ -56,10 +63,10 @@ def r1_generator_plumbing(chk: Check) -> None:
     for a in walk_body(bcf.node):
         if not (isinstance(a, ast.Assign) and any(isinstance(t, ast.Subscript) and unparse(t.slice) == "HEADER_FORMAT" for t in a.targets)):
             continue
-        if not (isinstance(a.value, ast.Call) and last_attr(a.value) == "header_values"):
+        forms_ = canon(bcf, a.value)
+        if not any("header_values(" in x for x in forms_):
             continue
-        bl = kwarg(a.value, "blacklist_characters") or (a.value.args[0] if a.value.args else None)
-        has_nul = bl is not None and isinstance(bl, ast.Constant) and isinstance(bl.value, str) and "\x00" in bl.value
+        has_nul = any("header_values(" in x and "\\x00" in x for x in forms_)
         facts = known_conditions(gb, gb.stmt_nodes_containing(a))
         x00_on = next((v for k, v in facts.items() if k.endswith("allow_x00")), None)
         construct = f"`{unparse(a, 70)}` respects allow_x00"
@@ -69,6 +76,35 @@ def r1_generator_plumbing(chk: Check) -> None:
             chk.violation("C01.R1", bcf, construct,
                           "this branch installs Schemathesis' own header strategy WITHOUT `\\x00` in the blacklist and is not restricted to `allow_x00=True`: when it is taken (placed before the `not allow_x00` arm it shadows it) plain string headers / cookies contain NUL although NUL characters are disabled",
                           bcf.loc(a))
+    # COVERAGE of the restriction: (a) every default format that is derived from the header-value strategy is rebuilt in the
+    # `not allow_x00` arm; (b) the own header strategy is built with the configured codec
+    dfl = P.func("specs/openapi/formats.py:get_default_format_strategies")
+    dtab = next((r for r in simple_return_expr(dfl) if isinstance(r, ast.Dict)), None)
+    hv_locals = {a.targets[0].id for a in walk_body(dfl.node) if isinstance(a, ast.Assign) and len(a.targets) == 1 and isinstance(a.targets[0], ast.Name) and isinstance(a.value, ast.Call) and last_attr(a.value) == "header_values"}
+    derived = []
+    if dtab is not None:
+        for k, v in zip(dtab.keys, dtab.values):
+            if k is not None and any(isinstance(x, ast.Name) and x.id in hv_locals for x in ast.walk(v)):
+                derived.append(unparse(k))
+    arm = guarded[0] if guarded else None
+    if arm is not None and derived:
+        rebuilt = {unparse(t.slice) for a in arm.body if isinstance(a, ast.Assign) for t in a.targets if isinstance(t, ast.Subscript)}
+        for key in derived:
+            construct = f"format {key} (derived from header values) excludes NUL when allow_x00 is off"
+            if key in rebuilt:
+                chk.ok("C01.R1", bcf, construct, "", bcf.loc(arm))
+            else:
+                chk.violation("C01.R1", bcf, construct,
+                              f"get_default_format_strategies builds {key} from the unrestricted header-value strategy and the `not allow_x00` arm does not replace it: `Authorization: Bearer <token>` of an `http` / `bearer` security scheme contains NUL characters although they are disabled",
+                              bcf.loc(arm))
+    hvf = P.func("specs/openapi/formats.py:header_values")
+    construct = "Schemathesis' own header-value strategy honours generation_config.codec"
+    if "codec" in params_of(hvf.node) and any(kwarg(c, "codec") is not None and "codec" in unparse(kwarg(c, "codec")) for c in body_calls(bcf) if last_attr(c) == "header_values"):
+        chk.ok("C01.R1", bcf, construct, "", bcf.loc())
+    else:
+        chk.violation("C01.R1", bcf, construct,
+                      "header_values() draws from code points 0..255 and has no codec parameter; from_schema's `codec=` does not reach strings generated through a custom format: with `--generation-codec=ascii` plain string headers, cookies and Authorization values contain non-ASCII characters",
+                      bcf.loc())
     for name in ("make_positive_strategy", "make_negative_strategy"):
         f = P.func(f"{HYP}:{name}")
         built = pfind("$v = _build_custom_formats($a, $g)", f.node)
